@@ -86,6 +86,8 @@ POW_FAMILIES = [
     ("incbin-size", lambda e: "#d incbin(\"data.bin\", 1, %s)\n" % e),
     ("inchexstr-start", lambda e: "#d inchexstr(\"data.hex\", %s)\n" % e),
     ("string-repeat", lambda e: "x = strlen(\"a\") << %s\n" % e),
+    ("align-res-bank", lambda e: "#bankdef a { bits = 0x100000000, addr = 0, size = 0x10 }\n#res 1\n#align %s\n#res 0x80000000\n" % e),
+    ("align-data-bank", lambda e: "#bankdef a { bits = 8, addr = 0, size = 0x10, outp = 0 }\n#d8 1\n#align %s\n#d8 2\n" % e),
     ("bits-res", lambda e: "#bankdef b\n{\n    #bits %s\n    #outp 0\n}\n#res 0xffff_ffff\n" % e),
     ("bits-data", lambda e: "#bankdef b\n{\n    #bits %s\n    #outp 0\n}\n#d8 1\nl:\n#d8 l\n" % e),
     # the same indices where sizes are computed statically (rule productions)
